@@ -200,6 +200,81 @@ def run_comp(case, stt):
     stt.label(case["kind"])
 
 
+# -- 4. labels after attribute assignment (histories on one object) ----------------------------------------------
+
+
+@st.composite
+def assign_case(draw):
+    spec = draw(G.signal_spec(classes=["RadioSignal", "IntensitySignal", "FullStokesSignal", "BasebandSignal", "DualPolarizationSignal"], nmax=6,
+                              nchan_max=8))
+    steps = []
+    for _ in range(draw(st.integers(1, 5))):
+        kind = draw(st.sampled_from(["look", "look", "set_cf", "set_align", "set_bw", "slice", "shift_cf_channels"]))
+        if kind == "set_cf":
+            steps.append([kind, draw(G.freq_q(3, 10.5, units=("Hz", "kHz", "MHz", "GHz")))])
+        elif kind == "set_bw":
+            steps.append([kind, draw(G.freq_q(0, 7, units=("Hz", "kHz", "MHz")))])
+        elif kind == "set_align":
+            steps.append([kind, draw(st.sampled_from(["bottom", "center", "top"]))])
+        elif kind == "shift_cf_channels":
+            steps.append([kind, draw(st.integers(-3, 3))])
+        else:
+            steps.append([kind])
+    return {"sig": spec, "steps": steps}
+
+
+def run_assign(case, stt):
+    import copy
+
+    spec = copy.deepcopy(case["sig"])
+    z = G.build(spec)
+    nchan = spec["sshape"][0]
+    baseband = spec["cls"] in G.BASEBAND
+    looked = changed_after_look = False
+    for step in case["steps"]:
+        kind = step[0]
+        with lib("attribute assignment " + kind):
+            if kind == "set_cf":
+                # keep labels resolvable: chan_bw/|cf| >= 1e-9
+                bw = O.fq(spec["sr"]) if baseband else O.fq(spec["bw"])
+                if O.fq(step[1]) > bw * 10**9:
+                    continue
+                z.center_freq = O.q(step[1])
+                spec["cf"] = step[1]
+            elif kind == "shift_cf_channels":
+                bwq = z.chan_bw
+                z.center_freq = z.center_freq + step[1] * bwq
+                v = z.center_freq
+                spec["cf"] = {"v": float(v.value), "u": [k for k in O.FREQ_UNITS if O.unit(k) == v.unit][0]}
+            elif kind == "set_bw":
+                if baseband:
+                    continue
+                if abs(O.fq(spec["cf"])) > O.fq(step[1]) * 10**9:
+                    continue
+                z.chan_bw = O.q(step[1])
+                spec["bw"] = step[1]
+            elif kind == "set_align":
+                z.freq_align = step[1]
+                spec["align"] = step[1]
+            elif kind == "slice":
+                _ = z[:, : max(1, nchan // 2)]
+        if kind.startswith("set") or kind == "shift_cf_channels":
+            changed_after_look |= looked
+        looked = True
+        exp = G.exact_labels(spec)
+        assert_labels(z, exp, 1, "after %s: " % (step,))
+        bw = O.fq(spec["sr"]) if baseband else O.fq(spec["bw"])
+        cf = O.fq(spec["cf"])
+        tol = max(abs(cf) + bw * nchan, bw * nchan) * F(2.220446049250313e-16) * 8
+        check(abs(O.hz(z.min_freq) - (cf - bw * nchan / 2)) <= tol and abs(O.hz(z.max_freq) - (cf + bw * nchan / 2)) <= tol,
+              "after {}: band edges do not follow the assigned metadata", step)
+        if nchan % 2:
+            check(z.freq_align == "center", "after {}: odd channel count but freq_align = {}", step, z.freq_align)
+    stt.nt(changed_after_look and nchan % 2 == 0)
+    for step in case["steps"]:
+        stt.label("step_" + step[0])
+
+
 SUBS = [
     Sub("band_model", radio_spec(), run_labels,
         "every radio class, nchan 1..17, alignment, centre/bandwidth over decades and units; non-trivial = even nchan with "
@@ -210,4 +285,8 @@ SUBS = [
     Sub("component", comp_case(), run_comp,
         "Stokes component by key/attribute (also after slicing, with trailing axes) and trailing-axis index selection; "
         "non-trivial = even channel count with alignment 'bottom'/'top'", quick=1200, thorough=20000),
+    Sub("assignment_history", assign_case(), run_assign,
+        "1..5 steps on ONE radio signal object: look at the labels, assign center_freq / chan_bw / freq_align, move the centre by whole "
+        "channels, take a frequency slice -- after every step the labels and band edges must follow the band model of the current metadata; "
+        "non-trivial = an assignment after the labels had been looked at, even channel count", quick=1500, thorough=30000),
 ]
